@@ -25,7 +25,8 @@ TABLE_CONSTRUCTS = ["mask_single_place", "mask_single_remove", "mask_multi_place
 ENUM_ALWAYS = False
 RULE = ("histories = (a) one legacy grid: class in SingleGrid/MultiGrid/HexSingleGrid/HexMultiGrid, w,h in 1..5 (3% 6x6 for the rejection-"
         "sampling branch of move_to_empty), torus on/off, 0/1/2 integer property layers, 1..7 agents of three classes (base, subclass, "
-        "subclass-of-subclass with a mixin after the base); 6 stored corpus histories, ~70 spelled-out corner cases, then random "
+        "subclass-of-subclass with a mixin after the base; in 35% of the histories they belong to 2-3 models, so equal class + unique_id "
+        "pairs share the grid and MultiGrid cells; the driver tells agents apart by identity only); 6 stored corpus histories, ~70 spelled-out corner cases, then random "
         "histories of up to 35 calls of place_agent (unplaced agent, in-grid), remove_agent, move_agent (integer targets: in grid, one "
         "wrap away, far away, beyond 2**64, own cell, an occupied cell), swap_pos (same cell, same agent, one/both unplaced), "
         "move_to_empty (incl. full grids), move_agent_to_one_of (random/closest/invalid selection, empty list with every handle_empty, "
@@ -356,6 +357,14 @@ def _fixed_cases():
                            + [["mask"], ["empties"], ["move", 1, 1, 1]] + qs[54:] + [["query", ["nbmask", 1, 1, True, False, 1]], ["query", ["layer", 0, 1]],
                               ["query", ["empty_mask_twice"]], ["move_sel", 1, 1, True, "closest", 0, 0], ["move_sel", 2, 0, True, "random", 0, 0],
                               ["move_sel", 1, 1, False, "closest", 1, -5], ["mask"], ["exists"], ["remove", 2], ["query", ["select", 1, None, 0, True, True, 0, 0]], ["mask"]]))
+        # agents 1 and 2 (3 and 4) have the same class and the same unique_id (two models); they share cells on the Multi grids and
+        # every mover / remover is applied to the later-placed one
+        for torus in (False, True):
+            k = _mk(cls, 3, 2, torus, 0, 4, [["place", 1, 1, 1], ["place", 2, 1, 1], ["place", 3, 0, 0], ["place", 4, 1, 1], ["move", 2, 2, 0], ["cell_list", [[1, 1], [2, 0]], False, "get"],
+                                           ["move", 2, 1, 1], ["remove", 2], ["place", 2, 1, 1], ["swap", 2, 3], ["swap", 1, 2], ["move_to_empty", 2], ["move", 2, 1, 1],
+                                           ["move_one_of", 2, [[2, 1]], "closest", None], ["move", 4, 0, 0], ["remove", 4], ["agents"], ["remove", 1], ["mask"], ["empties"]])
+            k["models"] = 2
+            out.append(k)
         # coordinates spelled as bools (values 0 / 1) and as an int subclass
         for ct in ("bool", "sub"):
             k = _mk(cls, 3, 3, False, 1, 2, [["place", 1, 1, 0], ["mask"], ["empties"], ["is_empty", 1, 0], ["move", 1, 0, 1], ["mask"], ["place", 2, 1, 1],
@@ -395,6 +404,8 @@ def gen_cases(rng, tier):
         mode = rng.choice(["nobuild", "nobuild", "buildfirst", "mixed", "mixed", "mixed"])
         ops = _gen_history(rng, cls, w, h, torus, nag, length, mode, nlayers=layers)
         k = _mk(cls, w, h, torus, layers, nag, ops, rseed=rng.randrange(1 << 30))
+        if rng.random() < 0.35:
+            k["models"] = rng.choice([2, 2, 3])     # agents of several models on one grid: equal classes and unique_ids occur
         if rng.random() < 0.3:
             k["gridsub"] = rng.choice([1, 2, 3])      # a user subclass of the grid class (docstring-only / extra ctor args / hooks calling super)
         r2 = rng.random()
@@ -559,6 +570,7 @@ def _run_net(case):
         warnings.simplefilter("ignore")
         model = mesa.Model(seed=1)
         g = NetworkGrid(G)
+        nmodels = [model, mesa.Model(seed=2)]
 
         class FalsyLen(mesa.Agent):          # every third agent has truth value False (a user class with __len__)
             def __len__(self):
@@ -568,7 +580,7 @@ def _run_net(case):
             pass
         agents = {}
         for aid in range(1, n + 1):
-            a = (FalsyLen, mesa.Agent, Sub)[aid % 3](model)
+            a = (FalsyLen, mesa.Agent, Sub)[((aid - 1) // 2) % 3](nmodels[(aid - 1) % 2])     # two models: equal class + unique_id pairs
             a._verif_id = aid
             agents[aid] = a
     name = "NetworkGrid"
@@ -1097,6 +1109,12 @@ def run_impl(case):
         model = mesa.Model(seed=1)
         rec = _RecRandom(case.get("rseed", 0))
         model.random = rec
+        # agents of TWO or THREE models may share one grid: unique_ids are unique per model only, so agents of the same class
+        # with the same unique_id meet (also in one MultiGrid cell); the driver tells agents apart by identity only
+        models = [model] + [mesa.Model(seed=2 + j) for j in range(max(0, int(case.get("models") or 1) - 1))]
+        for m2 in models:
+            m2.random = rec
+        decoy_model = mesa.Model(seed=9)
         nl = int(case.get("layers") or 0)
         lay = [space.PropertyLayer(f"layer{j}", w, h, j, dtype=int) for j in range(nl)]
         gs = int(case.get("gridsub") or 0)
@@ -1131,7 +1149,7 @@ def run_impl(case):
         lshadow = {j: {c: j for c in cells} for j in range(nl)}      # what the layers must hold (statement: last write)
         # prior history in the same process: a second grid of the same class, alive and populated, must not matter
         decoy = cls(w, h, torus)
-        decoy_agent = mesa.Agent(model)
+        decoy_agent = mesa.Agent(decoy_model)
         decoy.place_agent(decoy_agent, (0, 0))
         _ = decoy.empties
         # a heterogeneous population: the framework base, a subclass with an extra attribute, a subclass of the subclass
@@ -1162,8 +1180,9 @@ def run_impl(case):
         falsy = set(case.get("falsy") or [])
         agents = {}
         for aid in range(1, n + 1):
-            kls = (FalsyBool, FalsyLen, IterableAgent)[aid % 3] if aid in falsy else (mesa.Agent, Sub, SubSub)[aid % 3]
-            a = kls(model)
+            row = (aid - 1) // len(models)       # the agents of one row have the same class and the same unique_id
+            kls = (FalsyBool, FalsyLen, IterableAgent)[row % 3] if aid in falsy else (mesa.Agent, Sub, SubSub)[row % 3]
+            a = kls(models[(aid - 1) % len(models)])
             a._verif_id = aid
             agents[aid] = a
     agents_pending = False      # fixes/"_Grid.agents keeps agents whose truth value is False" is in /repo: always checked
